@@ -542,6 +542,9 @@ func (w *Worker) runPath(h *Harness, prefix []Decision) (end string, err error) 
 			keepWit = false
 		}
 	}
+	if len(w.pathViol) > 0 {
+		keepWit = false // the path continued under the negated violation: not a replayable witness
+	}
 	if keepWit {
 		func() {
 			defer func() {
